@@ -7,6 +7,8 @@ SP   admission predicates admit only when the row has room (space test on the sa
 IMP  sub-legalizer results are imported only for cells the sub-legalizer placed, position+flag together
 G2   the result is written to the Circuit only for placed cells
 PV   rows offered to the legalizers are the obstruction-free rows; each pass runs on the rows left by the previous one
+TB   the segment scans of Tetris stop early only when no later segment can matter
+FS   the free row space offered to the legalizers is rows minus exactly the fixed obstructions (structure shared with C15)
 TG   Tetris consumes row space only in row segments the cell's x-range really overlaps (two-sided overlap test)
 JX   the parallel index of movable cells advances exactly once per movable cell in import/export
 DS   free-space queries are pure: no stale derived state (cache) can be consulted
@@ -45,6 +47,8 @@ def run(ctx, rep, tier):
     rep.rule("G2", "Circuit writes of Legalizer::exportPlacement dominated by isPlaced(j)", 3)
     rep.rule("PV", "rows: Legalizer on computeRows(); Tetris/Abacus on remainingRows(); remainingRows subtracts exactly the placed cells", 4)
     rep.rule("TG", "Tetris advances a segment's free position only when the cell's x-range overlaps that segment", 1)
+    rep.rule("TB", "early exits of the Tetris segment scans are sound", 2)
+    rep.rule("FS", "free-space computation: obstacle filter and subtraction structure (shared with C15)", 6)
     rep.rule("JX", "parallel movable-cell index advances exactly once per movable cell", 2)
     rep.rule("SK", "row lookups by binary search use the key the rows are sorted by", 2)
     rep.rule("DS", "free-space / geometry queries keep no stale derived state (with positive control)", 2)
@@ -60,6 +64,10 @@ def run(ctx, rep, tier):
     check_g2(ctx, rep)
     check_pv(ctx, rep)
     check_tg(ctx, rep)
+    check_tb(ctx, rep)
+    from . import c15
+    c15.check_g12(ctx, c02_relabel(rep, "FS"))
+    c15.check_g13(ctx, c02_relabel(rep, "FS"))
     check_jx(ctx, rep)
     from .common import check_sort_keys
     check_sort_keys(ctx, rep, "SK", [f_ for f_ in prog.funcs.values() if f_.cls in (CQ + "LegalizerBase", CQ + "DetailedPlacement")])
@@ -90,6 +98,62 @@ def run(ctx, rep, tier):
         rep.holds("DS", "selftest/c01_controls.cpp", None, "positive control: the missing invalidation in Store::setScale is reported")
     else:
         rep.unknown("DS", "selftest/c01_controls.cpp", None, "positive control", "rule DS no longer reports the seeded stale cache: %s" % Sink.v)
+
+
+def c02_relabel(rep, rid):
+    from .c02 import _Relabel
+    return _Relabel(rep, rid)
+
+
+def check_tb(ctx, rep):
+    """Segment scans of the Tetris legalizer (instanciateCell, getPossibleIntervals) walk the segments of one y in increasing x.
+    An early `break` is sound only when this and all later segments cannot matter: the segment belongs to another y
+    (rows_[r].minY != y), or it starts at or beyond the right end of the cell (x + w <= rows_[r].minX)."""
+    prog = ctx.prog
+    for q in ("TetrisLegalizer::instanciateCell", "TetrisLegalizer::getPossibleIntervals"):
+        f = prog.func1(CQ + q)
+        g = cfg_of(f)
+        brs = [x for x in walk(f.body) if x.get("kind") == "BreakStmt"]
+        if not brs:
+            rep.unknown("TB", f.decl, f, q, "no break in the segment scan (shape changed)")
+            continue
+        for b in brs:
+            n = g.node_for(b)
+            preds, seen, edges = list(n.pred), set(), []
+            while preds:
+                p = preds.pop()
+                if p.idx in seen:
+                    continue
+                seen.add(p.idx)
+                if p.kind == "edge":
+                    edges.append(p)
+                elif p.kind == "join":
+                    preds.extend(p.pred)
+            verdict = None
+            for e in edges:
+                c = canon(e.ast)
+                t = pretty(c)
+                if c[0] == "bin" and c[1] == "!=" and e.val is True and ".minY" in t:
+                    continue
+                if c[0] == "bin" and c[1] == "==" and e.val is False and ".minY" in t:
+                    continue
+                if c[0] == "bin" and c[1] in ("<=", "<", ">=", ">") and ".minX" in t and e.val is True:
+                    # x + w <= seg.minX  or  seg.minX >= x + w
+                    lo_side = c[2] if c[1] in ("<=", "<") else c[3]
+                    hi_side = c[3] if c[1] in ("<=", "<") else c[2]
+                    if ".minX" in pretty(hi_side) and lo_side[0] == "bin" and lo_side[1] == "+":
+                        continue
+                if c[0] == "bin" and ".maxX" in t:
+                    verdict = ("bad", e.ast, "the scan stops at a segment that ends before the cell (`%s`): later segments of the same y, "
+                               "including the one the cell is in, are never updated" % t)
+                    break
+                verdict = ("unknown", e.ast, "early exit under `%s` is not one of the recognised sound conditions" % t)
+            if verdict is None:
+                rep.holds("TB", b, f, "early exit of the segment scan in %s is sound (other y / segment beyond the cell)" % q.split("::")[-1])
+            elif verdict[0] == "bad":
+                rep.violation("TB", verdict[1], f, "unsound early exit of the segment scan", verdict[2], key="%s|unsound break" % f.short)
+            else:
+                rep.unknown("TB", verdict[1], f, "early exit of the segment scan", verdict[2])
 
 
 def check_space(ctx, rep):
